@@ -83,12 +83,12 @@ fn batch(i: usize) -> SkinBatch {
         skin_section_index: i as u16,
         geoset_index: (i + 1) as u16,
         color_index: [0xFFFFu16, 0, 1][i % 3],
-        material_index: i as u16 + 2,
+        material_index: (i as u16).wrapping_add(2),
         material_layer: i as u16,
         texture_count: [1u16, 2, 4][i % 3],
-        texture_combo_index: i as u16 + 3,
-        texture_coord_combo_index: i as u16 + 4,
-        texture_weight_combo_index: i as u16 + 5,
+        texture_combo_index: (i as u16).wrapping_add(3),
+        texture_coord_combo_index: (i as u16).wrapping_add(4),
+        texture_weight_combo_index: (i as u16).wrapping_add(5),
         texture_transform_combo_index: [0xFFFFu16, 6, 7][i % 3],
     }
 }
